@@ -13,7 +13,7 @@ package volume
 //@ ensures[C04] forall kk :: 0 <= kk && kk < len(result) ==> hor(result, kk) <= max(hor(highs, kk + (0)), max(hor(lows, kk + (0)), max(hor(closings, kk + (0)), hor(volumes, kk + (0)))))
 //@ use forall n :: cumsum_char(result, mfvs, n)
 //@ use psum_cong(mfvs, mfvS(highs, lows, closings, volumes), _)
-//@ ensures[C01] "documented" forall k :: 0 <= k && k < len(result) ==> result[k] == adS(highs, lows, closings, volumes)[k]
+//@ ensures[C01,C18] "documented" forall k :: 0 <= k && k < len(result) ==> result[k] == adS(highs, lows, closings, volumes)[k]
 
 // Chaikin Money Flow: MFM = ((close - low) - (high - close)) / (high - low), MFV = MFM * volume,
 // CMF = sum of MFV over Period bars / sum of volume over the same bars.
@@ -35,12 +35,12 @@ package volume
 //@ ensures[C02] len(result) == max(0, len(highs) - (c.IdlePeriod()))
 //@ ensures[C03] consumed(highs) == len(highs) && consumed(lows) == len(lows) && consumed(closings) == len(closings) && consumed(volumes) == len(volumes) && closed(result)
 //@ ensures[C04] forall kk :: 0 <= kk && kk < len(result) ==> hor(result, kk) <= max(hor(highs, kk + (c.IdlePeriod())), max(hor(lows, kk + (c.IdlePeriod())), max(hor(closings, kk + (c.IdlePeriod())), hor(volumes, kk + (c.IdlePeriod())))))
-//@ step[C01,C15] "mfv" forall j :: 0 <= j && j < len(highs) ==> mfvs[j] == mfvS(highs, lows, closings, volumes)[j]
+//@ step[C01,C15,C18] "mfv" forall j :: 0 <= j && j < len(highs) ==> mfvs[j] == mfvS(highs, lows, closings, volumes)[j]
 //@ use psum_cong(mfvs, mfvS(highs, lows, closings, volumes), _)
 //@ use psum_cong(volumesSplice[1], volumes, _)
-//@ step[C01,C15] "sums" forall k :: 0 <= k && k < len(result) ==> res(MovingSum_Compute, 0)[k] == psum(mfvS(highs, lows, closings, volumes), k + c.Sum.Period) - psum(mfvS(highs, lows, closings, volumes), k) && res(MovingSum_Compute, 1)[k] == psum(volumes, k + c.Sum.Period) - psum(volumes, k)
-//@ step[C01,C15] "formula" forall k :: 0 <= k && k < len(result) ==> result[k] == cmfS(highs, lows, closings, volumes, c.Sum.Period)[k]
-//@ ensures[C01] "formula" forall k :: 0 <= k && k < len(result) ==> result[k] == cmfS(highs, lows, closings, volumes, c.Sum.Period)[k]
+//@ step[C01,C15,C18] "sums" forall k :: 0 <= k && k < len(result) ==> res(MovingSum_Compute, 0)[k] == psum(mfvS(highs, lows, closings, volumes), k + c.Sum.Period) - psum(mfvS(highs, lows, closings, volumes), k) && res(MovingSum_Compute, 1)[k] == psum(volumes, k + c.Sum.Period) - psum(volumes, k)
+//@ step[C01,C15,C18] "formula" forall k :: 0 <= k && k < len(result) ==> result[k] == cmfS(highs, lows, closings, volumes, c.Sum.Period)[k]
+//@ ensures[C01,C18] "formula" forall k :: 0 <= k && k < len(result) ==> result[k] == cmfS(highs, lows, closings, volumes, c.Sum.Period)[k]
 //@ use cmfS_range(highs, lows, closings, volumes, c.Sum.Period, _)
 //@ ensures[C15] "range" forall k :: 0 <= k && k < len(result) && (forall j :: k <= j && j < k + c.Sum.Period ==> barok(highs, lows, closings, j) && lows[j] < highs[j] && volumes[j] >= 0) && psum(volumes, k + c.Sum.Period) - psum(volumes, k) > 0 ==> 0 - 1 <= result[k] && result[k] <= 1
 
@@ -56,10 +56,10 @@ package volume
 //@ ensures[C02] len(result) == max(0, len(highs) - (e.IdlePeriod()))
 //@ ensures[C03] consumed(highs) == len(highs) && consumed(lows) == len(lows) && consumed(volumes) == len(volumes) && closed(result)
 //@ ensures[C04] forall kk :: 0 <= kk && kk < len(result) ==> hor(result, kk) <= max(hor(highs, kk + (e.IdlePeriod())), max(hor(lows, kk + (e.IdlePeriod())), hor(volumes, kk + (e.IdlePeriod()))))
-//@ step[C01] "emv1" forall j :: 0 <= j && j < len(highs) - 1 ==> res(Divide, 1)[j] == emvPrevBoxS(highs, lows, volumes)[j]
+//@ step[C01,C18] "emv1" forall j :: 0 <= j && j < len(highs) - 1 ==> res(Divide, 1)[j] == emvPrevBoxS(highs, lows, volumes)[j]
 //@ use psum_cong(res(Divide, 1), emvPrevBoxS(highs, lows, volumes), _)
-//@ step[C01] "as-implemented" forall k :: 0 <= k && k < len(result) ==> result[k] == smaS(emvPrevBoxS(highs, lows, volumes), e.Sma.Period)[k]
-//@ ensures[C01] "as-implemented" forall k :: 0 <= k && k < len(result) ==> result[k] == smaS(emvPrevBoxS(highs, lows, volumes), e.Sma.Period)[k]
+//@ step[C01,C18] "as-implemented" forall k :: 0 <= k && k < len(result) ==> result[k] == smaS(emvPrevBoxS(highs, lows, volumes), e.Sma.Period)[k]
+//@ ensures[C01,C18] "as-implemented" forall k :: 0 <= k && k < len(result) ==> result[k] == smaS(emvPrevBoxS(highs, lows, volumes), e.Sma.Period)[k]
 //@ guarantees[C01] "documented" forall k :: 0 <= k && k < len(result) ==> result[k] == smaS(emvRawS(highs, lows, volumes), e.Sma.Period)[k]
 
 // FI = EMA(period, (Current - Previous) * Volume), Volume being the volume of the current bar
@@ -71,10 +71,10 @@ package volume
 //@ ensures[C02] len(result) == max(0, len(closings) - (f.IdlePeriod()))
 //@ ensures[C03] consumed(closings) == len(closings) && consumed(volumes) == len(volumes) && closed(result)
 //@ ensures[C04] forall kk :: 0 <= kk && kk < len(result) ==> hor(result, kk) <= max(hor(closings, kk + (f.IdlePeriod())), hor(volumes, kk + (f.IdlePeriod())))
-//@ step[C01] "raw" forall j :: 0 <= j && j < len(closings) - 1 ==> res(Multiply, 0)[j] == (closings[j+1] - closings[j]) * volumes[j]
+//@ step[C01,C18] "raw" forall j :: 0 <= j && j < len(closings) - 1 ==> res(Multiply, 0)[j] == (closings[j+1] - closings[j]) * volumes[j]
 //@ use ema_cong(res(Multiply, 0), fiPrevVolS(closings, volumes), f.Ema.Period, emam(f.Ema), _)
-//@ step[C01] "as-implemented" forall k :: 0 <= k && k < len(result) ==> result[k] == emaS(fiPrevVolS(closings, volumes), f.Ema.Period, emam(f.Ema), k)
-//@ ensures[C01] "as-implemented" forall k :: 0 <= k && k < len(result) ==> result[k] == emaS(fiPrevVolS(closings, volumes), f.Ema.Period, emam(f.Ema), k)
+//@ step[C01,C18] "as-implemented" forall k :: 0 <= k && k < len(result) ==> result[k] == emaS(fiPrevVolS(closings, volumes), f.Ema.Period, emam(f.Ema), k)
+//@ ensures[C01,C18] "as-implemented" forall k :: 0 <= k && k < len(result) ==> result[k] == emaS(fiPrevVolS(closings, volumes), f.Ema.Period, emam(f.Ema), k)
 //@ guarantees[C01] "documented" forall k :: 0 <= k && k < len(result) ==> result[k] == emaS(fiRawS(closings, volumes), f.Ema.Period, emam(f.Ema), k)
 
 // Money Flow Index: raw money flow = typical price * volume; a bar's flow is positive/negative by the sign of the change
@@ -94,14 +94,14 @@ package volume
 //@ ensures[C02] len(result) == max(0, len(highs) - (m.IdlePeriod()))
 //@ ensures[C03] consumed(highs) == len(highs) && consumed(lows) == len(lows) && consumed(closings) == len(closings) && consumed(volumes) == len(volumes) && closed(result)
 //@ ensures[C04] forall kk :: 0 <= kk && kk < len(result) ==> hor(result, kk) <= max(hor(highs, kk + (m.IdlePeriod())), max(hor(lows, kk + (m.IdlePeriod())), max(hor(closings, kk + (m.IdlePeriod())), hor(volumes, kk + (m.IdlePeriod())))))
-//@ step[C01,C15] "raw" forall j :: 0 <= j && j < len(highs) ==> rawMoneyFlowSplice[0][j] == rmfS(highs, lows, closings, volumes)[j] && rawMoneyFlowSplice[1][j] == rmfS(highs, lows, closings, volumes)[j]
-//@ step[C01,C15] "flow" forall j :: 0 <= j && j < len(highs) - 1 ==> moneyFlowSplice[0][j] == mfS(highs, lows, closings, volumes)[j] && moneyFlowSplice[1][j] == mfS(highs, lows, closings, volumes)[j]
-//@ step[C01,C15] "pos-neg" forall j :: 0 <= j && j < len(highs) - 1 ==> res(KeepPositives, 0)[j] == posmfS(highs, lows, closings, volumes)[j] && res(MultiplyBy, 0)[j] == negmfS(highs, lows, closings, volumes)[j]
+//@ step[C01,C15,C18] "raw" forall j :: 0 <= j && j < len(highs) ==> rawMoneyFlowSplice[0][j] == rmfS(highs, lows, closings, volumes)[j] && rawMoneyFlowSplice[1][j] == rmfS(highs, lows, closings, volumes)[j]
+//@ step[C01,C15,C18] "flow" forall j :: 0 <= j && j < len(highs) - 1 ==> moneyFlowSplice[0][j] == mfS(highs, lows, closings, volumes)[j] && moneyFlowSplice[1][j] == mfS(highs, lows, closings, volumes)[j]
+//@ step[C01,C15,C18] "pos-neg" forall j :: 0 <= j && j < len(highs) - 1 ==> res(KeepPositives, 0)[j] == posmfS(highs, lows, closings, volumes)[j] && res(MultiplyBy, 0)[j] == negmfS(highs, lows, closings, volumes)[j]
 //@ use psum_cong(res(KeepPositives, 0), posmfS(highs, lows, closings, volumes), _)
 //@ use psum_cong(res(MultiplyBy, 0), negmfS(highs, lows, closings, volumes), _)
-//@ step[C01,C15] "sums" forall k :: 0 <= k && k < len(result) ==> res(MovingSum_Compute, 0)[k] == psum(posmfS(highs, lows, closings, volumes), k + m.Sum.Period) - psum(posmfS(highs, lows, closings, volumes), k) && res(MovingSum_Compute, 1)[k] == psum(negmfS(highs, lows, closings, volumes), k + m.Sum.Period) - psum(negmfS(highs, lows, closings, volumes), k)
-//@ step[C01,C15] "formula" forall k :: 0 <= k && k < len(result) ==> result[k] == mfiS(highs, lows, closings, volumes, m.Sum.Period)[k]
-//@ ensures[C01] "formula" forall k :: 0 <= k && k < len(result) ==> result[k] == mfiS(highs, lows, closings, volumes, m.Sum.Period)[k]
+//@ step[C01,C15,C18] "sums" forall k :: 0 <= k && k < len(result) ==> res(MovingSum_Compute, 0)[k] == psum(posmfS(highs, lows, closings, volumes), k + m.Sum.Period) - psum(posmfS(highs, lows, closings, volumes), k) && res(MovingSum_Compute, 1)[k] == psum(negmfS(highs, lows, closings, volumes), k + m.Sum.Period) - psum(negmfS(highs, lows, closings, volumes), k)
+//@ step[C01,C15,C18] "formula" forall k :: 0 <= k && k < len(result) ==> result[k] == mfiS(highs, lows, closings, volumes, m.Sum.Period)[k]
+//@ ensures[C01,C18] "formula" forall k :: 0 <= k && k < len(result) ==> result[k] == mfiS(highs, lows, closings, volumes, m.Sum.Period)[k]
 //@ use mfiS_range(highs, lows, closings, volumes, m.Sum.Period, _)
 //@ ensures[C15] "range" forall k :: 0 <= k && k < len(result) && psum(negmfS(highs, lows, closings, volumes), k + m.Sum.Period) - psum(negmfS(highs, lows, closings, volumes), k) > 0 ==> 0 <= result[k] && result[k] <= 100
 
@@ -110,16 +110,16 @@ package volume
 //@ ensures[C02] len(result) == max(0, len(highs) - (0))
 //@ ensures[C03] consumed(highs) == len(highs) && consumed(lows) == len(lows) && consumed(closings) == len(closings) && closed(result)
 //@ ensures[C04] forall kk :: 0 <= kk && kk < len(result) ==> hor(result, kk) <= max(hor(highs, kk + (0)), max(hor(lows, kk + (0)), hor(closings, kk + (0))))
-//@ ensures[C01] "formula" forall k :: 0 <= k && k < len(result) ==> result[k] == ((closings[k] - lows[k]) - (highs[k] - closings[k])) / (highs[k] - lows[k])
+//@ ensures[C01,C18] "formula" forall k :: 0 <= k && k < len(result) ==> result[k] == ((closings[k] - lows[k]) - (highs[k] - closings[k])) / (highs[k] - lows[k])
 //@ ensures[C15] "range" forall k :: 0 <= k && k < len(result) && lows[k] <= closings[k] && closings[k] <= highs[k] && lows[k] < highs[k] ==> 0 - 1 <= result[k] && result[k] <= 1
-//@ ensures[C01] "formula-stream" forall k :: 0 <= k && k < len(result) ==> result[k] == mfmS(highs, lows, closings)[k]
+//@ ensures[C01,C18] "formula-stream" forall k :: 0 <= k && k < len(result) ==> result[k] == mfmS(highs, lows, closings)[k]
 
 //@ func Mfv.Compute
 //@ requires consumed(highs) == 0 && consumed(lows) == 0 && consumed(closings) == 0 && consumed(volumes) == 0 && len(highs) == len(lows) && len(highs) == len(closings) && len(highs) == len(volumes)
 //@ ensures[C02] len(result) == max(0, len(highs) - (0))
 //@ ensures[C03] consumed(highs) == len(highs) && consumed(lows) == len(lows) && consumed(closings) == len(closings) && consumed(volumes) == len(volumes) && closed(result)
 //@ ensures[C04] forall kk :: 0 <= kk && kk < len(result) ==> hor(result, kk) <= max(hor(highs, kk + (0)), max(hor(lows, kk + (0)), max(hor(closings, kk + (0)), hor(volumes, kk + (0)))))
-//@ ensures[C01] "formula" forall k :: 0 <= k && k < len(result) ==> result[k] == mfvS(highs, lows, closings, volumes)[k]
+//@ ensures[C01,C18] "formula" forall k :: 0 <= k && k < len(result) ==> result[k] == mfvS(highs, lows, closings, volumes)[k]
 
 // If Volume is greater than Previous Volume: NVI = Previous NVI, otherwise
 // NVI = Previous NVI + (((Closing - Previous Closing) / Previous Closing) * Previous NVI); starts from Initial
@@ -130,7 +130,7 @@ package volume
 //@ ensures[C04] forall kk :: 0 <= kk && kk < len(result) ==> hor(result, kk) <= max(hor(closings, kk + (1)), hor(volumes, kk + (1)))
 //@ lit#0 invariant previous == nviR(closings, volumes, n.Initial, calls - 1)
 //@ lit#0 yields nviR(closings, volumes, n.Initial, calls)
-//@ ensures[C01] "documented" forall k :: 0 <= k && k < len(result) ==> result[k] == nviR(closings, volumes, n.Initial, k)
+//@ ensures[C01,C18] "documented" forall k :: 0 <= k && k < len(result) ==> result[k] == nviR(closings, volumes, n.Initial, k)
 
 // OBV of the previous call of the closure (0 before the first)
 //@ macro obvPrev(f, n) = (n == 0 ? 0 : f.ret(n - 1))
@@ -141,8 +141,8 @@ package volume
 //@ ensures[C04] forall kk :: 0 <= kk && kk < len(result) ==> hor(result, kk) <= max(hor(closings, kk + (0)), hor(volumes, kk + (0)))
 //@ lit#0 invariant previous == (calls == 0 ? 0 : fn.ret(calls - 1))
 //@ lit#0 yields obvPrev(fn, calls) + (arg0 > obvPrev(fn, calls) ? arg1 : (arg0 < obvPrev(fn, calls) ? 0 - arg1 : 0))
-//@ step[C01] "as-implemented" forall k :: 0 <= k && k < len(result) ==> result[k] == (k == 0 ? 0 : result[k-1]) + (closings[k] > (k == 0 ? 0 : result[k-1]) ? volumes[k] : (closings[k] < (k == 0 ? 0 : result[k-1]) ? 0 - volumes[k] : 0))
-//@ ensures[C01] "as-implemented" forall k :: 0 <= k && k < len(result) ==> result[k] == (k == 0 ? 0 : result[k-1]) + (closings[k] > (k == 0 ? 0 : result[k-1]) ? volumes[k] : (closings[k] < (k == 0 ? 0 : result[k-1]) ? 0 - volumes[k] : 0))
+//@ step[C01,C18] "as-implemented" forall k :: 0 <= k && k < len(result) ==> result[k] == (k == 0 ? 0 : result[k-1]) + (closings[k] > (k == 0 ? 0 : result[k-1]) ? volumes[k] : (closings[k] < (k == 0 ? 0 : result[k-1]) ? 0 - volumes[k] : 0))
+//@ ensures[C01,C18] "as-implemented" forall k :: 0 <= k && k < len(result) ==> result[k] == (k == 0 ? 0 : result[k-1]) + (closings[k] > (k == 0 ? 0 : result[k-1]) ? volumes[k] : (closings[k] < (k == 0 ? 0 : result[k-1]) ? 0 - volumes[k] : 0))
 //@ guarantees[C01] "documented" forall k :: 1 <= k && k < len(result) ==> result[k] == result[k-1] + (closings[k] > closings[k-1] ? volumes[k] : (closings[k] < closings[k-1] ? 0 - volumes[k] : 0))
 
 // VPT = Previous VPT + (Volume * (Current Closing - Previous Closing) / Previous Closing), starting from 0
@@ -152,20 +152,20 @@ package volume
 //@ ensures[C02] len(result) == max(0, len(closings) - (1))
 //@ ensures[C03] consumed(closings) == len(closings) && consumed(volumes) == len(volumes) && closed(result)
 //@ ensures[C04] forall kk :: 0 <= kk && kk < len(result) ==> hor(result, kk) <= max(hor(closings, kk + (1)), hor(volumes, kk + (1)))
-//@ step[C01] "terms" forall j :: 0 <= j && j < len(closings) - 1 ==> ratios[j] == vptTermS(closings, volumes)[j]
+//@ step[C01,C18] "terms" forall j :: 0 <= j && j < len(closings) - 1 ==> ratios[j] == vptTermS(closings, volumes)[j]
 //@ use forall n :: cumsum_char(result, ratios, n)
 //@ use psum_cong(ratios, vptTermS(closings, volumes), _)
-//@ ensures[C01] "documented" forall k :: 0 <= k && k < len(result) ==> result[k] == psum(vptTermS(closings, volumes), k + 1)
+//@ ensures[C01,C18] "documented" forall k :: 0 <= k && k < len(result) ==> result[k] == psum(vptTermS(closings, volumes), k + 1)
 
 //@ func Vwap.Compute
 //@ requires v.Sum.Period >= 1 && consumed(closings) == 0 && consumed(volumes) == 0 && len(closings) == len(volumes)
 //@ ensures[C02] len(result) == max(0, len(closings) - (v.IdlePeriod()))
 //@ ensures[C03] consumed(closings) == len(closings) && consumed(volumes) == len(volumes) && closed(result)
 //@ ensures[C04] forall kk :: 0 <= kk && kk < len(result) ==> hor(result, kk) <= max(hor(closings, kk + (v.IdlePeriod())), hor(volumes, kk + (v.IdlePeriod())))
-//@ step[C01] "products" forall j :: 0 <= j && j < len(closings) ==> res(Multiply, 0)[j] == mulS(closings, volumes)[j]
+//@ step[C01,C18] "products" forall j :: 0 <= j && j < len(closings) ==> res(Multiply, 0)[j] == mulS(closings, volumes)[j]
 //@ use psum_cong(res(Multiply, 0), mulS(closings, volumes), _)
 //@ use psum_cong(volumesSplice[1], volumes, _)
-//@ ensures[C01] "documented" forall k :: 0 <= k && k < len(result) ==> result[k] == vwmaS(closings, volumes, v.Sum.Period)[k]
+//@ ensures[C01,C18] "documented" forall k :: 0 <= k && k < len(result) ==> result[k] == vwmaS(closings, volumes, v.Sum.Period)[k]
 
 // ---- C18: scaling of the volume formulas (a is the factor by which the raw money flow scales: lam for prices, mu for volumes)
 //@ lemma rmfS_pscale(h stream, l stream, c stream, v stream, h2 stream, l2 stream, c2 stream, v2 stream, lam real, j int)
